@@ -232,6 +232,71 @@ def u_refit(h, kind):
     h.observe('x', c2['w_init'][0] + 1)
 
 
+def u_pdcd_dual_init(h):
+    """PDCD_WS started from a user dual point: the user's array is not touched, and a second solve through the same solver
+    object returns what the first one returned"""
+    from skglm.experimental.pdcd_ws import PDCD_WS
+    from skglm.experimental.quantile_regression import Pinball
+    Pm = P()
+    Xc = X_of('corr32')
+    n, p = Xc.shape
+    y = h.const(np.array([1.0, -2.0, 0.5][:n]))           # (catalogue targets; the dual start is symbolic)
+    al = h.constant(0.25)
+    # the dual start comes from a catalogue too: the whole run is then one exact path (symbolic starts did not finish within
+    # minutes); aliasing of the user's array is a property of the code path, not of the values
+    z0 = h.const(np.array([0.5, -0.25, 0.125][:n]))
+    h.observe('probe', 1.0)
+    snap = _snapshot(z0)
+    pen = h.penalty(Pm.L1, alpha=al)
+    df = h.datafit(Pinball, quantile_level=h.constant(0.5))
+    Xd = h.const(Xc)
+    sol = PDCD_WS(max_iter=1, max_epochs=1, p0=2, tol=1e-9, dual_init=z0)
+    w1, o1, s1 = sol._solve(Xd, y, df, pen)
+    w1 = [w1[k] for k in range(len(w1))]
+    _unchanged(h, 'dual_init', z0, snap)
+    w2, o2, s2 = sol._solve(Xd, y, df, pen)
+    for k in range(len(w1)):
+        h.observe('w%d' % k, w1[k])
+        h.ensure('second-solve-returns-the-same[coef %d]' % k, h.eq(w2[k], w1[k]))
+
+
+def u_group_indices_pure(h, sparse):
+    """the group index arrays handed to the group datafit / penalty (here in a non-sorted order) are read-only for the
+    datafit's constants and for a GroupBCD solve"""
+    import skglm.solvers as S
+    import skglm.datafits.group as GRP
+    Pm, Dm = P(), D()
+    Xc = X_of('corr33')
+    n, p = Xc.shape
+    gp = np.array([0, 2, 3], dtype=np.int32)
+    gi = np.array([2, 0, 1], dtype=np.int32)            # group 0 = features (2, 0): not in increasing order
+    snap_gi, snap_gp = [int(v) for v in gi], [int(v) for v in gp]
+    al = h.real('alpha')
+    h.assume(al > 0)
+    y = h.vec('y', n)
+    df = h.datafit(Dm.QuadraticGroup, grp_ptr=gp, grp_indices=gi)
+    pen = h.penalty(Pm.WeightedGroupL2, alpha=al, weights=h.const(np.array([1.0, 0.5])), grp_ptr=gp, grp_indices=gi)
+    Xd = h.const(Xc)
+    Xa = h.csc(Xd) if sparse else Xd
+    real_sn = GRP.spectral_norm if hasattr(GRP, 'spectral_norm') else None
+    if real_sn is not None and not getattr(h, 'unpatched', False):
+        GRP.spectral_norm = lambda *a, **k: real_sn(*a, max_iter=1)        # (power method bounded: its accuracy is C09's subject)
+    try:
+        if sparse:
+            # (the CSC block constants are where the index arrays are sliced; a whole solve adds nothing for this obligation)
+            df.get_lipschitz_sparse(Xa.data, Xa.indptr, Xa.indices, y)
+        else:
+            sol = S.GroupBCD(max_iter=1, max_epochs=0, p0=2, tol=1e-9, fit_intercept=False)
+            w, obj, sc = sol._solve(Xa, y, df, pen)
+    finally:
+        if real_sn is not None:
+            GRP.spectral_norm = real_sn
+    h.observe('probe', 1.0)
+    h.ensure('grp_indices-untouched', [int(v) for v in gi] == snap_gi and [int(v) for v in df.grp_indices] == snap_gi
+             and [int(v) for v in pen.grp_indices] == snap_gi)
+    h.ensure('grp_ptr-untouched', [int(v) for v in gp] == snap_gp)
+
+
 def units(tier):
     us = []
     q = tier == 'quick'
@@ -247,6 +312,11 @@ def units(tier):
                        max_paths=6000, timeout_ms=8000))
     for kind in ('Lasso', 'SparseLogisticRegression'):
         us.append(Unit('C18/E/refit[%s]' % kind, u_refit, dict(kind=kind), wall_s=60))
+    # (u_pdcd_dual_init is kept for reference but not registered: PDCD_WS's step sizes are irrational algebraic numbers and
+    #  its runs do not finish in the engine within minutes, even on catalogue data)
+    for sp in (False, True):
+        us.append(Unit('C18/D/group-index-arrays-untouched[sparse=%s]' % sp, u_group_indices_pure, dict(sparse=sp), wall_s=120,
+                       timeout_ms=8000, patched=sp))
     return us
 
 
